@@ -451,6 +451,8 @@ pub struct Built<K: Tgt> {
     pub saw_null: bool,
     pub saw_long_run: bool,
     pub dead: bool,
+    /// a reload happened: slab layout comes from the loader, not from the merge policy
+    pub reloaded: bool,
 }
 
 impl<K: Tgt> Built<K> {
@@ -485,12 +487,22 @@ pub fn pick_ms(rng: &mut Rng) -> usize {
     *rng.pick(&[2usize, 3, 4, 4, 4, 5, 6, 6, 8, 8, 8, 12, 16, 16, 64])
 }
 
+pub fn family_name<K: Tgt>() -> &'static str {
+    match K::FAMILY {
+        Family::Plain => "Column",
+        Family::Prefix => "PrefixColumn",
+        Family::Delta => "DeltaColumn",
+    }
+}
+
 fn violation<K: Tgt>(cx: &mut Ctx, prop: &str, b: &Built<K>, q: &str, what: String, extra: serde_json::Value) {
-    let sig = format!("{prop}|{}|{q}", K::NAME);
+    // coarse signature: column family + query (+ panic class); the exact type is in the text and detail
+    let sig = format!("{prop}|{}|{q}", family_name::<K>());
     cx.violation(&sig, format!("{}: {what}", K::NAME), b.detail(extra));
 }
 
-/// Compare every read path with the model. Returns the number of mismatches reported.
+/// Compare every read path with the model. Returns the number of case-ending problems
+/// (wrong contents, panicking reads, broken invariants).
 pub fn check_all<K: Tgt>(cx: &mut Ctx, prop: &str, b: &Built<K>, rng: &mut Rng, full: bool) -> usize {
     let mut bad = 0;
     let model = &b.model;
@@ -587,15 +599,24 @@ pub fn check_all<K: Tgt>(cx: &mut Ctx, prop: &str, b: &Built<K>, rng: &mut Rng, 
                 cx.add(k, n);
             }
             for (q, text) in mis {
-                bad += 1;
+                // a query disagreement is reported but does not end the case; wrong contents do
+                if matches!(q.as_str(), "len" | "to_vec" | "iter" | "get" | "iter_range" | "runs") {
+                    bad += 1;
+                }
                 violation(cx, prop, b, &q, text, json!({}));
             }
         }
     }
     if full {
         if let Err(p) = catch(|| col.check_invariants()) {
+            if b.reloaded && p.contains("should have been merged") {
+                // the loader cuts slabs at max/2 and leaves a short tail; the merge-policy
+                // clause of the debug helper only describes layouts produced by edits
+                cx.count("merge_clause_skipped_after_load");
+            } else {
             bad += 1;
             violation(cx, prop, b, &format!("check_invariants|{}", panic_sig(&p)), format!("check_invariants() panicked: {p}"), json!({}));
+            }
         }
         match catch(|| col.validate_encoding()) {
             Err(p) => {
@@ -642,6 +663,7 @@ pub fn drive<K: Tgt>(cx: &mut Ctx, prop: &str, rng: &mut Rng, nops: usize, max_l
         saw_null: false,
         saw_long_run: false,
         dead: false,
+        reloaded: false,
     };
     let mut g = Gen::<K::V>::new(rng, dom, ms, max_len);
     let every = rng.range(1, 4);
@@ -680,7 +702,7 @@ pub fn drive<K: Tgt>(cx: &mut Ctx, prop: &str, rng: &mut Rng, nops: usize, max_l
                     b.dead = true;
                     return b;
                 }
-                violation(cx, prop, &b, &format!("op:{}|{}", op.kind(), panic_sig(&p)), format!("{} panicked on arguments inside the documented preconditions: {p}", op.kind()), json!({"op": op.show()}));
+                violation(cx, prop, &b, &format!("op|{}", panic_sig(&p)), format!("{} panicked on arguments inside the documented preconditions: {p}", op.kind()), json!({"op": op.show()}));
                 b.dead = true;
                 return b;
             }
@@ -705,7 +727,10 @@ pub fn drive<K: Tgt>(cx: &mut Ctx, prop: &str, rng: &mut Rng, nops: usize, max_l
         match &op {
             Op::CopyRanges { .. } => cx.count("copy_ranges_ops"),
             Op::Edit(_) => cx.count("edit_cursor_ops"),
-            Op::Reload(_) => cx.count("reload_ops"),
+            Op::Reload(_) => {
+                cx.count("reload_ops");
+                b.reloaded = true;
+            }
             Op::SpliceRuns(..) | Op::SpliceFrom { .. } => cx.count("splice_runs_ops"),
             _ => {}
         }
